@@ -98,3 +98,46 @@ Proof.
   - rewrite gwd_cols. now rewrite zv_setdiff.
   - apply gwd_none.
 Qed.
+
+(* ------------------------------------------------------------------------------------------------------------------
+   sptensor.to_sptenmat / sptenmat.to_sptensor call tt_sub2ind / tt_ind2sub per side. The GENERATED functions
+   (Gen/GenUtils.v; contracts in Proofs/UtilsProofs.v) compute exactly the row / column indices of the hand model
+   (Model/C01Conv.v to_sptenmat: tm_pos) and the per-side subscripts its way back uses (stm_row_to_sub). *)
+From PV Require Import Model.Sparse Proofs.C07Index Proofs.C01Proofs.
+
+Section SparseSides.
+Context {V : Type}.
+
+(* q = the row modes (side 0) or the column modes (side 1) of an ordered partition; non-empty, as the code calls the
+   helper only then (`rsize.size == 0` / `csize.size == 0` are separate branches) *)
+Theorem to_sptenmat_side_generated (S : sparse V) r c M side : is_perm (r ++ c) (length (sshape S)) ->
+  Forall (fun j => inb (sshape S) j = true) (ssubs S) -> to_sptenmat S r c = Some M ->
+  let q := nth side [r; c] [] in q <> [] -> (side < 2)%nat ->
+  GenUtils.tt_sub2ind (zs (pick 0%nat q (sshape S))) (zm (map (pick 0%nat q) (ssubs S))) OrdF
+    = Ok (map (fun rc => Z.of_nat (nth side rc 0%nat)) (stm_subs M)).
+Proof.
+  intros Hp Hb E q Hq Hside. unfold to_sptenmat in E. rewrite (proj2 (is_permb_spec _ _) Hp) in E. inversion E; subst M; clear E.
+  cbn [stm_subs].
+  assert (Hqlt : forall k, In k q -> (k < length (sshape S))%nat).
+  { intros k Hk. apply (perm_app_lt r c); auto. destruct side as [|[|side]]; [left|right|lia]; exact Hk. }
+  rewrite tt_sub2ind_spec.
+  - f_equal. rewrite !map_map. apply map_ext. intros i. unfold tm_pos. destruct side as [|[|side]]; [reflexivity|reflexivity|lia].
+  - intros Hn. apply Hq. apply (f_equal (@length nat)) in Hn. rewrite pick_length in Hn. now destruct q.
+  - intros i Hi. apply in_map_iff in Hi as (j & <- & Hj). rewrite Forall_forall in Hb. apply inb_pick_sub; auto.
+Qed.
+
+Theorem sptenmat_back_side_generated (M : sptenmat V) side :
+  Forall (fun rc => inb (stm_shape M) rc = true) (stm_subs M) -> (side < 2)%nat ->
+  let q := nth side [stm_r M; stm_c M] [] in
+  GenUtils.tt_ind2sub (zs (pick 0%nat q (stm_tshape M))) (zs (map (fun rc => nth side rc 0%nat) (stm_subs M))) OrdF
+    = Ok (map (fun rc => zs (ind2sub (pick 0%nat q (stm_tshape M)) (nth side rc 0%nat))) (stm_subs M)).
+Proof.
+  intros Hb Hside q. rewrite tt_ind2sub_spec; [now rewrite map_map|].
+  intros k Hk. apply in_map_iff in Hk as (rc & <- & Hrc). rewrite Forall_forall in Hb. specialize (Hb rc Hrc).
+  unfold stm_shape in Hb. destruct rc as [|a [|b [|z rc]]]; cbn [inb] in Hb; try discriminate;
+    try (rewrite !andb_false_r in Hb; discriminate).
+  rewrite andb_true_r in Hb. apply andb_true_iff in Hb as [Ha Hb']. apply Nat.ltb_lt in Ha, Hb'.
+  destruct side as [|[|side]]; [exact Ha|exact Hb'|lia].
+Qed.
+
+End SparseSides.
